@@ -45,7 +45,8 @@ Definition fs_push (s : fstore) (f : frame) : fstore :=
   then {| base := sat_add64 b0 1; frames := tl (frames s) ++ [f]; maxf := maxf s |}
   else {| base := b0; frames := frames s ++ [f]; maxf := maxf s |}.
 
-Definition fs_index_of_seq (s : fstore) (q : N) : option nat :=
+(* the slot `seq - base_seq` when it lies inside the window (frame_store.rs before the second repair) *)
+Definition fs_slot_of_seq (s : fstore) (q : N) : option nat :=
   match frames s with
   | [] => None
   | _ => if q <? base s then None
@@ -53,19 +54,26 @@ Definition fs_index_of_seq (s : fstore) (q : N) : option nat :=
               else Some (N.to_nat (q - base s))
   end.
 
-(* get_by_seq as repaired (fix: compare the stored frame's seq with the requested one) *)
-Definition fs_get_by_seq (s : fstore) (q : N) : option frame :=
-  match fs_index_of_seq s q with
+(* index_of_seq as repaired (fix 72a656f: the frame in that slot must carry the requested seq) *)
+Definition fs_index_of_seq (s : fstore) (q : N) : option nat :=
+  match fs_slot_of_seq s q with
   | None => None
   | Some i => match nth_error (frames s) i with
-              | Some f => if fseq f =? q then Some f else None
+              | Some f => if fseq f =? q then Some i else None
               | None => None
               end
   end.
 
-(* get_by_seq as it was before the repair (kept for the refutation witness S14) *)
-Definition fs_get_by_seq_unchecked (s : fstore) (q : N) : option frame :=
+(* get_by_seq: the frame at index_of_seq *)
+Definition fs_get_by_seq (s : fstore) (q : N) : option frame :=
   match fs_index_of_seq s q with
+  | None => None
+  | Some i => nth_error (frames s) i
+  end.
+
+(* get_by_seq as it was before the repairs (kept for the refutation witness S14) *)
+Definition fs_get_by_seq_unchecked (s : fstore) (q : N) : option frame :=
+  match fs_slot_of_seq s q with
   | None => None
   | Some i => nth_error (frames s) i
   end.
